@@ -900,7 +900,9 @@ class Exec:
                             m._saved = outer[id(m)][0] if tr else state
                             m._N, m._E = _false_pred, _false_pred
                             m.nattr_delta = []
-                        elif isinstance(m, VDict):
+                        elif isinstance(m, VDict) and m.owned:
+                            # only dictionaries the function owns can be accumulators; a dictionary received from the caller is
+                            # read-only here (a write fails `frame`) and must keep its contents for reads inside the body
                             m.dom = _false_pred
                     env.clear()
                     env.update(env_before)
@@ -1051,7 +1053,7 @@ class Exec:
                             nd = list(getattr(m, "nattr_delta", []))
                             deltas[id(m)] = None if (m._N is _false_pred and m._E is _false_pred and not nd) else (m._N, m._E, nd)
                         elif isinstance(m, VDict):
-                            deltas[id(m)] = None if m.dom is _false_pred else (m.dom, m.val)
+                            deltas[id(m)] = None if (m.dom is _false_pred or not m.owned) else (m.dom, m.val)
                     rebinds = {k for k in env_before if k != "__parent__" and env.get(k) is not env_before[k]}
                     # the loop target itself may shadow an outer name; that is a rebind only if read later, be strict
                     reads = {id(m) for m in muts if m.read_in_loop}
